@@ -69,8 +69,8 @@ class Ctx:
         return total - (time.time() - self.t0)
 
     # ---------------------------------------------------------------- harness
-    def vh_binary(self, race=False):
-        key = "race" if race else "plain"
+    def vh_binary(self, race=False, pkg="vh"):
+        key = pkg + ("-race" if race else "-plain")
         if key in self._vh:
             return self._vh[key]
         env = dict(os.environ, **GOENV)
@@ -80,21 +80,21 @@ class Ctx:
             raise Infra("cannot copy go.sum: %s" % e)
         os.makedirs(os.path.join(CACHE, "bin"), exist_ok=True)
         out = os.path.join(CACHE, "bin", "vh-%s-%d" % (key, os.getpid()))
-        cmd = ["go", "build", "-tags", "verif"] + (["-race"] if race else []) + ["-o", out, "./cmd/vh"]
+        cmd = ["go", "build", "-tags", "verif"] + (["-race"] if race else []) + ["-o", out, "./cmd/" + pkg]
         p = subprocess.run(cmd, cwd=HARNESS, env=env, capture_output=True, text=True)
         if p.returncode != 0:
             raise Infra("harness build failed (a change to goNEAT altered an interface the harness binds to?):\n" + p.stderr[-4000:])
         self._vh[key] = out
         return out
 
-    def vh(self, args, race=False, timeout=1800, env=None, expect_report=None, stdin=None):
+    def vh(self, args, race=False, timeout=1800, env=None, expect_report=None, stdin=None, pkg="vh"):
         """Run a harness command. Returns (exit code, report dict or None, stdout+stderr)."""
         e = dict(os.environ)
         e["VERIF_SEED"] = str(self.seed)
         if env:
             e.update(env)
         try:
-            p = subprocess.run([self.vh_binary(race)] + args, cwd=self.work, env=e, capture_output=True,
+            p = subprocess.run([self.vh_binary(race, pkg)] + args, cwd=self.work, env=e, capture_output=True,
                                text=True, timeout=timeout, input=stdin)
         except subprocess.TimeoutExpired:
             raise Infra("harness command timed out: vh %s" % " ".join(args))
